@@ -242,11 +242,19 @@ impl<'a> sval_ref::ValueRef<'a> for EmitValue<'a> {
 
         impl<'sval, S: sval::Stream<'sval>> sval::Stream<'sval> for AnyStream<S> {
             fn null(&mut self) -> sval::Result {
-                if self.in_map_key && self.key_depth > 0 {
-                    return self.key_fragment("null");
+                if self.in_map_key {
+                    return if self.key_depth > 0 {
+                        self.key_fragment("null")
+                    } else {
+                        self.stream.null()
+                    };
                 }
 
-                self.stream.null()
+                // An `AnyValue` without a value
+                // Streaming an empty message instead of null keeps the
+                // element when it's in a sequence
+                self.stream.record_tuple_begin(None, None, None, Some(0))?;
+                self.stream.record_tuple_end(None, None, None)
             }
 
             fn bool(&mut self, value: bool) -> sval::Result {
@@ -574,6 +582,25 @@ mod tests {
         let de = common::AnyValue::decode(encode(emit::Value::capture_sval(&[1, 2, 3]))).unwrap();
 
         assert_eq!(array_value([int_value(1), int_value(2), int_value(3)]), de);
+    }
+
+    #[test]
+    fn encode_array_null() {
+        let de = common::AnyValue::decode(encode(emit::Value::capture_sval(&[
+            Some(1),
+            None,
+            Some(3),
+        ])))
+        .unwrap();
+
+        assert_eq!(
+            array_value([
+                int_value(1),
+                common::AnyValue { value: None },
+                int_value(3)
+            ]),
+            de
+        );
     }
 
     #[test]
